@@ -198,9 +198,51 @@ func c05Delete(c *Ctx, fd *ast.FuncDecl) {
 	}
 	// order: positions are processed from the back (after the ascending sort), so that earlier removals do not shift later indexes
 	if loop.For != nil {
-		if h, ok := c.forHeader(loop.For); !ok || h.Step >= 0 {
-			ob.Fail("indexes are not processed in descending position order (after sorting, deleting from the back keeps the remaining indexes valid)")
+		// the position read from the index list, per iteration, for 0..4 indexes (header simulated): m-1, m-2, …, 0
+		var posT Term
+		for _, ip := range loop.Iter {
+			mapPath(ip, func(t Term) (Term, bool) {
+				if ix, ok := t.(TIndex); ok && isParamTerm(ix.X, variadic) && posT == nil {
+					posT = ix.I
+				}
+				return nil, false
+			})
+		}
+		if posT == nil {
+			ob.Undecided("the loop does not read the index list")
 			return
+		}
+		for m := int64(0); m <= 4; m++ {
+			hook := func(t Term) (int64, bool) {
+				if b, ok := t.(TBuiltin); ok && b.Name == "len" && len(b.Args) == 1 && isParamTerm(b.Args[0], variadic) {
+					return m, true
+				}
+				return 0, false
+			}
+			its, why := c.loopIterations(loop, hook, 16)
+			if why != "" {
+				ob.Undecided("index loop cannot be folded: %s", why)
+				return
+			}
+			good := int64(len(its)) == m
+			for j, st := range its {
+				e := &termEnv{hook: func(t Term) (int64, bool) {
+					if lv, ok := t.(TLoop); ok {
+						if val, ok := st[lv.Obj]; ok {
+							return val, true
+						}
+					}
+					return hook(t)
+				}}
+				pos, ok := e.int(posT)
+				if !ok || pos != m-1-int64(j) {
+					good = false
+				}
+			}
+			if !good {
+				ob.Fail("indexes are not processed in descending position order (after sorting, deleting from the back keeps the remaining indexes valid)")
+				return
+			}
 		}
 	} else {
 		ob.Undecided("index loop is not a counted loop")
